@@ -7,7 +7,7 @@ pub fn take_diff<T: SizedType>(
     old_skeleton: &StateTreeSkeleton<T>,
     new_skeleton: &StateTreeSkeleton<T>,
 ) -> HashSet<CopyFromPatch> {
-    build_patches_recursive(old_skeleton, new_skeleton, vec![], vec![])
+    build_patches_recursive(old_skeleton, new_skeleton, vec![], vec![]).0
 }
 
 /// Enum representing the result of LCS algorithm
@@ -55,8 +55,8 @@ pub fn lcs_by_score<T>(
         if i > 0 && j > 0 {
             let score = score_fn(&old[i - 1], &new[j - 1]);
 
-            if score > 0.0 {
-                // Likely matched
+            if score > 0.0 && dp[i][j] == dp[i - 1][j - 1] + score {
+                // Matched, and the DP table confirms this pairing is part of an optimal alignment
                 results.push(DiffResult::Common {
                     old_index: i - 1,
                     new_index: j - 1,
@@ -119,12 +119,26 @@ fn get_node_at_path<'a, T: SizedType>(
     }
 }
 
+/// Number of leaf cells (Delay/Mem/Feed) below a node.
+fn leaf_count<T: SizedType>(node: &StateTreeSkeleton<T>) -> usize {
+    match node {
+        StateTreeSkeleton::FnCall(children) => children.iter().map(|c| leaf_count(c)).sum(),
+        _ => 1,
+    }
+}
+
+/// Bonus that makes a whole-subtree match win a tie against a partial match
+/// carrying the same number of cells.
+const EXACT_MATCH_BONUS: f64 = 0.5;
+
+/// Returns the patches for the pair of nodes at the given paths together with the
+/// number of leaf cells those patches carry over.
 fn build_patches_recursive<T: SizedType>(
     old_skeleton: &StateTreeSkeleton<T>,
     new_skeleton: &StateTreeSkeleton<T>,
     old_path: Vec<usize>,
     new_path: Vec<usize>,
-) -> HashSet<CopyFromPatch> {
+) -> (HashSet<CopyFromPatch>, f64) {
     // Retrieve the current node from the path
     let old_node = get_node_at_path(old_skeleton, &old_path).expect("Invalid old_path");
     let new_node = get_node_at_path(new_skeleton, &new_path).expect("Invalid new_path");
@@ -144,13 +158,14 @@ fn build_patches_recursive<T: SizedType>(
             "Size mismatch between matched nodes at old_path {old_path:?} and new_path {new_path:?}"
         );
 
-        return [CopyFromPatch {
+        let patches = [CopyFromPatch {
             src_addr,
             dst_addr,
             size,
         }]
         .into_iter()
         .collect();
+        return (patches, leaf_count(old_node) as f64 + EXACT_MATCH_BONUS);
     }
 
     match (old_node, new_node) {
@@ -161,17 +176,12 @@ fn build_patches_recursive<T: SizedType>(
                 for new_idx in 0..new_children.len() {
                     let child_old_path = [old_path.clone(), vec![old_idx]].concat();
                     let child_new_path = [new_path.clone(), vec![new_idx]].concat();
-                    let patches = build_patches_recursive(
+                    let (patches, score) = build_patches_recursive(
                         old_skeleton,
                         new_skeleton,
                         child_old_path,
                         child_new_path,
                     );
-                    let score = if patches.is_empty() {
-                        0.0
-                    } else {
-                        patches.len() as f64
-                    };
                     child_patches_map.push(((old_idx, new_idx), patches, score));
                 }
             }
@@ -194,21 +204,25 @@ fn build_patches_recursive<T: SizedType>(
 
             // Collect patches based on LCS results
             let mut c_patches = HashSet::new();
+            let mut carried = 0.0;
             for result in &lcs_results {
                 if let DiffResult::Common {
                     old_index,
                     new_index,
                 } = result
-                    && let Some((_, patches, _)) = child_patches_map
+                    && let Some((_, patches, score)) = child_patches_map
                         .iter()
                         .find(|((o, n), _, _)| o == old_index && n == new_index)
                 {
                     c_patches.extend(patches.iter().cloned());
+                    // a partial match is worth the cells it carries, without the
+                    // whole-subtree bonuses of its children
+                    carried += score.floor();
                 }
             }
 
-            c_patches
+            (c_patches, carried)
         }
-        _ => HashSet::new(),
+        _ => (HashSet::new(), 0.0),
     }
 }
